@@ -424,7 +424,9 @@ func validateParamHeaders(header http.Header, msg *jsonrpc.Request, tool *Tool) 
 			continue
 		}
 
-		if headerVal == "" {
+		// Presence, not emptiness: the client mirrors an empty string argument as
+		// a header with an empty value.
+		if len(header.Values(fullHeader)) == 0 {
 			return fmt.Errorf("header mismatch: missing %s header for parameter %q", fullHeader, strings.Join(b.Path, "."))
 		}
 
